@@ -394,6 +394,19 @@ def load_glb(
     if chunk_type != _magic["json"]:
         raise ValueError("no initial JSON header!")
 
+    def remaining() -> int:
+        # how many bytes are left in the file from the current position
+        here = file_obj.tell()
+        file_obj.seek(0, 2)
+        end = file_obj.tell()
+        file_obj.seek(here)
+        return end - here
+
+    # the chunk lengths come from the file: check them against the bytes
+    # that are actually there before asking for a buffer of that size
+    if int(chunk_length) > remaining():
+        raise ValueError("JSON chunk is longer than the file!")
+
     # uint32 causes an error in read, so we convert to native int
     # for the length passed to read, for the JSON header
     json_data = file_obj.read(int(chunk_length))
@@ -433,6 +446,8 @@ def load_glb(
         if chunk_type != _magic["bin"]:
             raise ValueError("not binary GLTF!")
         # read the chunk
+        if int(chunk_length) > remaining():
+            raise ValueError("chunk was not expected length!")
         chunk_data = file_obj.read(int(chunk_length))
         if len(chunk_data) != chunk_length:
             raise ValueError("chunk was not expected length!")
